@@ -4,7 +4,11 @@
  *   ops:  N<t>        schedule_now(task t)
  *         F<t>:<ms>   schedule_future(task t, now + ms milliseconds)    (ms may be 0)
  *         X<t>        cancel(task t) unless the client has already seen t's function run (racy by nature)
+ *         A<t>:max    schedule_future(task t, UINT64_MAX);  A<t>:half  at now + 2^63 ns  (parked tasks)
+ *         W<t>        wait (sleeping 1, 2, 4, .. ms) until task t's function has been invoked
+ *         Z<ms>       aws_thread_current_sleep(ms milliseconds)
  *         P           an explicit schedule point
+ *       A task whose function has been invoked may be handed over again - without another aws_task_init, as callers do.
  *         R           release this client's reference (always the client's last op)
  *                   TASKFN <t> <op>              what task t's function does when it is invoked while the scheduler is
  *                                                still in use (re-entrancy from the scheduler's own thread): N<u> / F<u>:<ms> / X<u>
@@ -26,6 +30,11 @@ static struct aws_thread_scheduler *sched;
 static struct aws_task tasks[MAXT + 1];
 static int invoked_seen[MAXT + 1];
 static int sched_started[MAXT + 1];
+static int in_fn[MAXT + 1];
+static int cancel_out[MAXT + 1]; /* a cancel request was issued for the current hand-over */
+static int tainted[MAXT + 1];    /* the task ran although a cancel request was on its way: the request may still be queued
+                                  * (cancellation is asynchronous and leaves no trace the caller could wait for), so the
+                                  * task object is not handed over again */
 static int sched_tid = -1;
 static uint64_t t0;
 static int client_tid[MAXC];
@@ -46,6 +55,10 @@ static void log_time(const char *k, uint64_t ns) {
     uint64_t d = ns >= t0 ? ns - t0 : 0;
     v[0] = (long long)(d / 1000000000ull); /* seconds and nanoseconds: both fit TLC's 32-bit integers */
     v[1] = (long long)(d % 1000000000ull);
+    if (v[0] > 2000000000ll) { /* parked decades ahead: "later than anything that happens here" */
+        v[0] = 2000000000ll;
+        v[1] = 0;
+    }
     vh_ints(k, v, 2);
 }
 
@@ -62,6 +75,12 @@ static void task_fn(struct aws_task *task, void *arg, enum aws_task_status statu
     (void)task;
     int t = (int)(intptr_t)arg;
     invoked_seen[t] = 1;
+    if (cancel_out[t] && status == AWS_TASK_STATUS_RUN_READY) {
+        tainted[t] = 1;
+    }
+    cancel_out[t] = 0;
+    sched_started[t] = 0; /* the task object is the caller's again: it may be handed over once more (from in here too) */
+    in_fn[t] = 1;         /* ... by other threads only once this function has returned */
     vh_begin("Invoked");
     vh_int("task", t);
     vh_str("status", status == AWS_TASK_STATUS_RUN_READY ? "RUN" : "CANCELED");
@@ -72,15 +91,25 @@ static void task_fn(struct aws_task *task, void *arg, enum aws_task_status statu
     if (taskfn[t][0] && rel_begun < nclients) {
         do_sched_op(taskfn[t], -1);
     }
+    /* the way a real program learns that its task ran is synchronised; tell the race detector so */
+    VS_TSAN_RELEASE(&in_fn[t]);
+    in_fn[t] = 0;
 }
 
 static void do_sched_op(const char *op, int client) {
     int t = op[1] ? atoi(op + 1) : 0;
+    if (client >= 0 && (op[0] == 'N' || op[0] == 'F' || op[0] == 'A')) {
+        if (in_fn[t] || tainted[t]) {
+            return; /* its function is still running on the scheduler thread / a cancel request may still be queued */
+        }
+        VS_TSAN_ACQUIRE(&in_fn[t]);
+    }
     if (op[0] == 'N') {
         if (sched_started[t]) {
             return; /* every task is handed over at most once */
         }
         sched_started[t] = 1;
+        invoked_seen[t] = 0;
         vh_begin("Sched");
         vh_int("task", t);
         vh_int("client", client);
@@ -98,6 +127,23 @@ static void do_sched_op(const char *op, int client) {
         aws_high_res_clock_get_ticks(&now);
         uint64_t at = now + ms * 1000000ull;
         sched_started[t] = 1;
+        invoked_seen[t] = 0;
+        vh_begin("Sched");
+        vh_int("task", t);
+        vh_int("client", client);
+        vh_str("kind", "future");
+        log_time("at", at);
+        vh_end();
+        aws_thread_scheduler_schedule_future(sched, &tasks[t], at);
+    } else if (op[0] == 'A') {
+        if (sched_started[t]) {
+            return;
+        }
+        uint64_t now = 0;
+        aws_high_res_clock_get_ticks(&now);
+        uint64_t at = strstr(op, ":half") ? now + (1ull << 63) : UINT64_MAX;
+        sched_started[t] = 1;
+        invoked_seen[t] = 0;
         vh_begin("Sched");
         vh_int("task", t);
         vh_int("client", client);
@@ -107,6 +153,7 @@ static void do_sched_op(const char *op, int client) {
         aws_thread_scheduler_schedule_future(sched, &tasks[t], at);
     } else if (op[0] == 'X') {
         if (sched_started[t] && !invoked_seen[t]) {
+            cancel_out[t] = 1;
             vh_begin("Cancel");
             vh_int("task", t);
             vh_int("client", client);
@@ -121,8 +168,15 @@ static void run_client(void *arg) {
     for (int i = 0; i < c->nops; ++i) {
         const char *op = c->ops[i];
         int t = op[1] ? atoi(op + 1) : 0;
-        if (op[0] == 'N' || op[0] == 'F' || op[0] == 'X') {
+        if (op[0] == 'N' || op[0] == 'F' || op[0] == 'X' || op[0] == 'A') {
             do_sched_op(op, c->k);
+        } else if (op[0] == 'W') {
+            uint64_t ms = 1;
+            for (int r = 0; r < 14 && (sched_started[t] || in_fn[t]); ++r, ms *= 2) {
+                aws_thread_current_sleep(ms * 1000000ull);
+            }
+        } else if (op[0] == 'Z') {
+            aws_thread_current_sleep((uint64_t)atoi(op + 1) * 1000000ull);
         } else if (op[0] == 'P') {
             vs_point();
         } else if (op[0] == 'R') {
@@ -138,7 +192,16 @@ static void run_client(void *arg) {
     }
 }
 
+/* every thread is blocked and only the passing of time can wake one up */
+static void idle_hook(long unforced) {
+    vh_begin("Idle");
+    log_time("vt", vs_now_ns());
+    vh_int("unforced", unforced);
+    vh_end();
+}
+
 static void scenario(char **lines, int nlines) {
+    vs_idle_hook = idle_hook;
     nclients = 0;
     ntasks = 1;
     rel_begun = 0;
@@ -172,6 +235,7 @@ static void scenario(char **lines, int nlines) {
         aws_task_init(&tasks[t], task_fn, (void *)(intptr_t)t, "verif_task");
         invoked_seen[t] = 0;
         sched_started[t] = 0;
+        in_fn[t] = cancel_out[t] = tainted[t] = 0;
     }
     int before = vs_nthreads;
     sched = aws_thread_scheduler_new(vh_alloc(), NULL);
